@@ -86,6 +86,9 @@ def diagnose(s, rows, l, clause, el):
                         break
         if nd.get("leak", {}).get("on"):
             d += " leak"
+        if nd["type"] == "T" and clause.startswith("C06.") and any(
+                x["type"] in ("PRV", "PSV", "FCV", "TCV") and el in (x["a"], x["b"]) and r["status"][x["name"]] == 1 for x in s["links"]):
+            d += " (a valve with status Open is attached: the tank's limit rules act on the internal status, which an Open valve ignores)"
         if nd["type"] == "T" and clause.startswith("C06."):
             # a pump attached to the tank that reports reverse flow (the open C02 finding) moves water the tank rules do not expect
             for x in s["links"]:
